@@ -166,10 +166,10 @@ func engineFixture(verif string) (res fixtureResult) {
 				bad[o.Where[strings.LastIndex(o.Where, ".")+1:]] = true
 			}
 		}
-		if n != 3 {
-			res.Failures = append(res.Failures, fmt.Sprintf("goroutine analysis: %d go statements found in the fixture, expected 3", n))
+		if n != 6 {
+			res.Failures = append(res.Failures, fmt.Sprintf("goroutine analysis: %d go statements found in the fixture, expected 6", n))
 		}
-		for _, f := range []string{"racy", "viaAtomic", "beforeGoOnly"} {
+		for _, f := range []string{"racy", "viaAtomic", "beforeGoOnly", "racyMethod", "viaAtomicMethod", "beforeGoOnlyMethod"} {
 			expect("goroutine-sharing", f, bad[f])
 		}
 	}
